@@ -3095,7 +3095,7 @@ FINDINGS = [
      "what": "Interval.sqrt of an interval reaching below zero kept the open flag at 0: sqrt(x) for x in (-1,4] bounded by (0,2]"},
     {"status": "fixed", "key": "bounds:x ^ y | x >= 1/4, x <= 1/2, y >= 1, y <= 2", "commit": "0aa781a",
      "what": "Interval power with an interval exponent used [lo^elo, hi^ehi] also for bases below 1: [1/4,1/2]^[1,2] = [1/4,1/4]"},
-    {"status": "fixed", "key": "crash:norm.minus_normal_definite_integral", "commit": "fixes/C19-11.patch",
+    {"status": "fixed", "key": "crash:norm.minus_normal_definite_integral", "commit": "b74ba79",
      "what": "norm.minus_normal_definite_integral called to_poly without conds: Equation raised TypeError instead of declining "
              "(e.g. rewriting (INT x:[0,1]. x^2) - (INT y:[0,1]. y) to INT x:[0,1]. (x - 1) * x)"},
     {"status": "known", "key": "normalize-idempotent:second-pass-changes-form-only",
